@@ -56,6 +56,10 @@ def gen_task(g, prop, name, svc, allow_ramp, big=False):
             t.pop("warmup-iterations" if g.coin(0.5) else "iterations")
             if "iterations" not in t and t.get("warmup-iterations", 0) == 0:
                 t["warmup-iterations"] = 2
+        if g.coin(0.3):
+            # explicit iterations on top of a finite parameter source (e.g. indexing only part of a corpus)
+            t["size"] = g.randint(1, 20)
+            t["progress"] = g.coin(0.5)
     elif loop == 1:
         tp = g.pick([0.05, 0.2, 1.0, 3.0])
         wt = g.pick([0, 0, 0.3, 1.0, 2.0])
@@ -589,8 +593,15 @@ def check_loop_control(prop, cfg, t, ci, client, h, ys, samples, proc, tol, bad,
             it = 1
         else:
             it = None  # the parameter source ends the task
-        if it is not None:
+        if it is not None and size is not None and size < w + it:
+            # the parameter source is exhausted before the requested number of iterations
+            probes["source_shorter_than_iterations"] = probes.get("source_shorter_than_iterations", 0) + 1
+            if not external and n != size:
+                bad("iterations", "source-count", f"{ctx}: executed {n} requests, the parameter source provides {size} (fewer than warmup-iterations + iterations = {w + it})")
+        elif it is not None:
             want = w + it
+            if size is not None:
+                probes["iterations_on_finite_source"] = probes.get("iterations_on_finite_source", 0) + 1
             if not external:
                 if n != want:
                     bad("iterations", "count", f"{ctx}: executed {n} requests, warmup-iterations + iterations = {want}")
